@@ -36,6 +36,26 @@ func pureFailCall(c ssa.CallInstruction) bool {
 // effect.  nilFirst demands that result 0 is the nil constant ("no program").
 func failEdgeReturnsError(e *Env, p *load.Program, rule, key string, call *ssa.Call, nilFirst bool) bool {
 	r := e.R
+	mk := r.Mark()
+	if failEdgeReturnsErrorDom(e, p, rule, key, call, nilFirst) {
+		return true
+	}
+	// the dominator tree does not show it (a shared error variable, a check behind a join, a deferred rewrite of the
+	// result): decide the same statement on the function's paths
+	if nilFirst || flow.ErrResult(call) == nil {
+		return false
+	}
+	ps := pathsOf(p, call.Parent())
+	if good, _ := ps.failReturns(call, extraPure); good {
+		r.Retract(mk, rule)
+		r.OK(rule, key, p.Pos(call.Pos()), fmt.Sprintf("failure of %s leads, without other effects, to a return with a non-nil error on every path (%s)", calleeName(call), ps.describe()))
+		return true
+	}
+	return false
+}
+
+func failEdgeReturnsErrorDom(e *Env, p *load.Program, rule, key string, call *ssa.Call, nilFirst bool) bool {
+	r := e.R
 	errv := flow.ErrResult(call)
 	if errv == nil {
 		r.Unknown(rule, key, p.Pos(call.Pos()), "call has no error result")
